@@ -7,6 +7,7 @@ PFX = '_ŠČ'
 # ---- constructors ----------------------------------------------------------------------
 def P(i): return ('P', i)                       # type parameter
 def C(name, *args): return ('C', name, args)    # nominal type / path with generic args
+def CP(name, ins, out): return ('CP', name, tuple(ins), out)   # name(ins) -> out  (Fn sugar)
 def Tup(*ts): return ('Tup', ts)
 def Ref(lt, mut, t): return ('Ref', lt, mut, t)
 def Ptr(mut, t): return ('Ptr', mut, t)
@@ -76,6 +77,8 @@ def show(t):
         if t[2]:
             return '%s<%s>' % (t[1], ', '.join(show_garg(a) for a in t[2]))
         return t[1]
+    if k == 'CP':
+        return '%s(%s)%s' % (t[1], ', '.join(show(x) for x in t[2]), '' if t[3] is None else ' -> ' + show(t[3]))
     if k == 'Tup':
         if len(t[1]) == 1:
             return '(%s,)' % show(t[1][0])
@@ -220,7 +223,8 @@ def small_types(budget, nparams=2, with_exprs=True):
             cur += [C('Vec', t), Ref(None, False, t), Ref('a', False, t), Ref(None, True, t), Ptr(False, t), Ptr(True, t),
                     Slice(t), Paren(t), Tup(t), Fn(None, False, [t], None), Fn(None, False, [], t),
                     Fn('C', False, [t], None), Fn('', False, [t], None),
-                    Dyn(C('Tr', t)), Dyn(C('Tr', GAssoc('A', t))), Proj(t, C('Tr'), 'A'), C('m::W', t), C('::m::W', t)]
+                    Dyn(C('Tr', t)), Dyn(C('Tr', GAssoc('A', t))), Proj(t, C('Tr'), 'A'), C('m::W', t), C('::m::W', t),
+                    Dyn(CP('Fn', [t], None)), Dyn(CP('Fn', [], t)), Proj(C('X'), C('Tr', t), 'A')]
             if with_exprs:
                 for e in exprs1:
                     cur.append(Arr(t, e))
@@ -309,12 +313,17 @@ def rand_type(rng, depth, nparams, allow_params=True, exprs=True):
     if k == 'Dyn':
         bounds = [C(rng.choice(['Tr', 'm::Tq']), *([sub()] if rng.random() < 0.6 else []),
                     *([GAssoc('A', sub())] if rng.random() < 0.5 else []))]
+        if rng.random() < 0.3:
+            bounds = [CP(rng.choice(['Fn', 'FnMut', 'm::Fq']), [sub() for _ in range(rng.randrange(3))],
+                         sub() if rng.random() < 0.7 else None)]
         if rng.random() < 0.4:
             bounds.append(C('Send'))
         if rng.random() < 0.3:
             bounds.append(GLt(rng.choice(['a', 'static'])))
         return Dyn(*bounds)
     if k == 'Proj':
+        if rng.random() < 0.5:
+            return Proj(sub(), C(rng.choice(['Tr', 'm::Conv']), sub()), rng.choice(['A', 'Out']))
         return Proj(sub(), C(rng.choice(['Tr', 'Iterator'])), rng.choice(['A', 'Item']))
     if k == 'Paren':
         return Paren(sub())
@@ -378,6 +387,13 @@ def mutate(rng, x):
         if c == 1 and x[2]:
             return C(x[1], *x[2][:-1])
         return C('q::' + x[1], *x[2])
+    if k == 'CP':
+        c = rng.randrange(3)
+        if c == 0:
+            return CP(x[1], x[2] + (C('u8'),), x[3])
+        if c == 1:
+            return CP(x[1], x[2], None if x[3] is not None else C('u8'))
+        return CP(x[1] + 'x', x[2], x[3])
     if k == 'Arr':
         return Arr(x[1], Bin('+', x[2] if atomic(x[2]) else ParE(x[2]), Lit('1')))
     if k == 'Slice':
